@@ -495,6 +495,55 @@ zv_harness! {
     }
 }
 
+/// Wide MinMax fields with a CONCRETE maximum (so the strategy analysis and the width are
+/// concrete) and symbolic other values: element 2 (W = 59, 62, 63) or element 3 (W = 61, 63)
+/// starts inside a byte and ends in a ninth byte (bit_in_byte + width > 64).
+fn intvec_wide_ninth<const W: u32>() {
+    let hi: u64 = (1u64 << W) - 1;
+    let a: u64 = vany();
+    let b: u64 = vany();
+    assume(a <= hi && b <= hi);
+    // four elements: below that from_slice stores raw words; [hi, 0, ..] is unsorted -> MinMax
+    let src = [hi, 0u64, a, b];
+    let r = IntVec::<u64>::from_slice(&src);
+    match &r {
+        Ok(v) => {
+            assert!(v.len() == 4, "IntVec::len differs from the input length");
+            assert!(v.get(0) == Some(src[0]), "IntVec::get(0) differs from input 0 (wide MinMax)");
+            assert!(v.get(1) == Some(src[1]), "IntVec::get(1) differs from input 1 (wide MinMax)");
+            assert!(v.get(2) == Some(src[2]), "IntVec::get(2) differs from input 2 (wide MinMax)");
+            assert!(v.get(3) == Some(src[3]), "IntVec::get(3) differs from input 3 (wide MinMax)");
+            assert!(v.get(4).is_none(), "IntVec::get past the end returned a value");
+            zcover!(a >> (W - 2) == 3 && b >> (W - 2) == 3, "built, elements 2 and 3 have their two top field bits set");
+        }
+        Err(_) => {}
+    }
+    forget(r);
+}
+macro_rules! c09_intvec_wide_ninth {
+    ($name:ident, $tier:ident, $unwind:literal, $w:literal) => {
+        zv_harness! {
+            name: $name,
+            prop: "C09",
+            tier: $tier,
+            unwind: $unwind,
+            stubs: [
+                alloc::fmt::format => crate::common::stubs::fmt_format,
+                std::time::Instant::now => crate::common::stubs::instant_now,
+                std::time::Instant::elapsed => crate::common::stubs::instant_elapsed
+            ],
+            targets: "IntVec::<u64>::from_slice (strategy analysis, compress_min_max, write_bits incl. its bit-by-bit fallback), get -> get_min_max -> read_bits for a field that spills into a ninth byte",
+            bounds: "4 values [2^W - 1, 0, a, b], W from the instance (59, 61, 62, 63), a and b symbolic <= 2^W - 1 (4 is the smallest length from_slice does not store as raw words)",
+            oracle: "from_slice Ok or Err; if Ok: len()==4, get(i)==Some(input[i]) for i<4, get(4)==None",
+            body: { intvec_wide_ninth::<$w>() }
+        }
+    };
+}
+c09_intvec_wide_ninth!(c09_intvec_u64_wide_ninth_w59_n4, probe, 70, 59);
+c09_intvec_wide_ninth!(c09_intvec_u64_wide_ninth_w61_n4, probe, 70, 61);
+c09_intvec_wide_ninth!(c09_intvec_u64_wide_ninth_w62_n4, probe, 70, 62);
+c09_intvec_wide_ninth!(c09_intvec_u64_wide_ninth_w63_n4, probe, 70, 63);
+
 /// 32 / 34 elements: `fast_sorted_check` and `analyze_delta_bulk` sample every 2nd element.
 fn intvec_sampled<const N: usize>(sorted: bool) {
     // concrete ascending base 10*i, three symbolic positions: 1 (between samples), N-1 (after the
